@@ -87,6 +87,8 @@ func VerifC09(tmpl string, maxCycle int) {
 	verif.Assert(L("C09:model:a-run-does-not-write-the-library"), verif.FootprintWritesInto("exec1", lib) == 0)
 	verif.Assert(L("C09:model:a-run-touches-no-other-instance"), verif.FootprintTouches("exec1", kb2, kb3) == 0)
 	verif.Assert(L("C09:model:a-run-writes-no-package-level-variable"), verif.FootprintWritesGlobals("exec1") == 0)
+	// the engine value is configuration (MaxCycle, listeners): goroutines may share one engine, so a run must not write it
+	verif.Assert(L("C09:model:a-run-does-not-write-the-engine-value"), verif.FootprintWritesInto("exec1", e1) == 0)
 	verif.Assert(L("C09:model:instance-creation-writes-no-package-level-variable"), verif.FootprintWritesGlobals("create4") == 0)
 	verif.Assert(L("C09:model:instance-creation-touches-no-instance"), verif.FootprintTouches("create4", kb1, kb2, kb3) == 0)
 	verif.Assert(L("C09:model:later-instance-creation-does-not-write-the-library"), verif.FootprintWritesInto("create4", lib) == 0)
